@@ -215,11 +215,20 @@ def run_config(cfg, rank, world, normal):
         st = {"n": len(idx)}
         c0 = len(normal.calls)
         try:
-            opt.zero_grad()
-            out = module(x)
-            loss = crit(out, torch.zeros(len(idx)))
-            loss.backward()
-            opt.step()
+            if cfg.get("closure"):
+                def closure():
+                    opt.zero_grad()
+                    loss = crit(module(x), torch.zeros(len(idx)))
+                    loss.backward()
+                    return loss
+
+                opt.step(closure)
+            else:
+                opt.zero_grad()
+                out = module(x)
+                loss = crit(out, torch.zeros(len(idx)))
+                loss.backward()
+                opt.step()
             st["grad"] = grads(module)
             st["params"] = snapshot(module)
         except Exception as e:
